@@ -131,7 +131,7 @@ def summarize(prop, tier, seed, level, groups, results, snap, runner, t0, meta):
     """prints lines, writes evidence, returns exit code"""
     findings = load_findings()
     n_obl = n_dis = n_b_obl = n_b_dis = n_u_obl = n_u_dis = n_sup = 0
-    violations, known, undecided, errors = [], [], [], []
+    violations, known, undecided, errors, unexplored = [], [], [], [], []
     canary_ok = canary_bad = 0
     ftable = {}
     samples = []
@@ -145,6 +145,8 @@ def summarize(prop, tier, seed, level, groups, results, snap, runner, t0, meta):
             hit = [p for p in r.failures if re.search(g.canary_expect or ".", p.pid + " " + p.desc)]
             if r.state == "failed" and hit:
                 canary_ok += 1
+            elif g.exploratory and r.state == "undecided":
+                unexplored.append("%s: %s" % (g.gid, r.reason))
             else:
                 canary_bad += 1
                 errors.append("%s: must-fail canary did not fail (%s %s) - contract/harness is vacuous" % (g.gid, r.state, r.reason))
@@ -166,7 +168,7 @@ def summarize(prop, tier, seed, level, groups, results, snap, runner, t0, meta):
             errors.append("%s: %s" % (g.gid, r.reason))
             continue
         if r.state == "undecided":
-            undecided.append("%s: %s" % (g.gid, r.reason))
+            (unexplored if g.exploratory else undecided).append("%s: %s" % (g.gid, r.reason))
             continue
         np_ = len(r.props)
         nd = sum(1 for p in r.props if p.status == "SUCCESS")
@@ -221,6 +223,8 @@ def summarize(prop, tier, seed, level, groups, results, snap, runner, t0, meta):
         print("CHECK-ERROR: " + e[:600])
     for u in undecided[:20]:
         print("UNDECIDED: " + u[:400])
+    for u in unexplored[:40]:
+        print("UNEXPLORED (deeper-tier attempt without verdict, not counted): " + u[:300])
 
     for ent in ftable.values():
         ent["loops"] = sorted(ent["loops"]) or ["none/constant"]
@@ -236,7 +240,7 @@ def summarize(prop, tier, seed, level, groups, results, snap, runner, t0, meta):
             "unbounded_obligations": n_u_obl, "unbounded_discharged": n_u_dis,
             "supporting_obligations": n_sup,
             "groups": len([r for r in results if not r.group.canary]),
-            "groups_undecided": len(undecided), "groups_error": len(errors),
+            "groups_undecided": len(undecided), "groups_error": len(errors), "groups_unexplored": unexplored[:60],
             "canaries_failed_as_required": canary_ok, "canaries_broken": canary_bad,
             "evaluations": len(results), "distinct_nontrivial": len(set((r.group.function, r.group.shape, r.group.config) for r in results)),
             "rule": "one evaluation = one obligation group (function x contract x concrete shape x configuration) decided by CBMC for all contents; distinct = distinct (function, shape, config) tuples",
@@ -248,7 +252,7 @@ def summarize(prop, tier, seed, level, groups, results, snap, runner, t0, meta):
             "functions": sorted(ftable.values(), key=lambda e: e["function"]),
             "samples": samples or [{"note": "no group produced obligations"}],
             "solver_seconds": round(solver_s, 1),
-            "back_end": "cbmc 6.11.0 / MiniSat 2.2.1 (default), per-group overrides listed in functions[].",
+            "back_end": "cbmc 6.11.0 / MiniSat 2.2.1 (default); CaDiCaL where a group says so; layer B runs MiniSat and CaDiCaL side by side and takes the first verdict",
             "repo_tree_hash": snap.tree_hash if snap else "",
             "loop_contract_insertions": snap.loop_diffs if snap else [],
             "explanation": meta.get("explanation", ""),
